@@ -78,7 +78,7 @@ Definition step_matches (o : toracles) (v2 : bool) (serial : N) (l : bytes) (s :
 Definition flatten_dump (d : list (bytes * list bytes)) : list kv :=
   flat_map (fun e => map (fun v => (fst e, v)) (snd e)) d.
 
-Definition is_rp_line (l : bytes) : bool := match l with 33 :: _ => true | _ => false end.
+Definition is_rp_line (l : bytes) : bool := nth 0 l 0 =? 33.
 
 Fixpoint all_some {A} (l : list (option A)) : option (list A) :=
   match l with
